@@ -28,6 +28,8 @@ WEAK_SC = {  # switch -> (base cfg, invariant(s) of which at least one must be r
     "Weak_NonceAfterTransportWrite": ("C16_weak_NonceAfterTransportWrite.cfg", ["NonceFresh"]),
     # ... and the attacker can put that next frame in the place of the failed one
     "Weak_NonceAfterTransportWrite/replace": ("C16_weak_NonceAfterTransportWrite_drop.cfg", ["TamperFails"]),
+    # key-type check and signature check merged wrongly: a secp256k1 key is accepted with any signature
+    "Weak_AuthSkipsVerifyForOtherKeyTypes": ("C16_weak_AuthSkipsVerifyForOtherKeyTypes.cfg", ["AuthenticatedExceptSelf"]),
 }
 WEAK_UP = {
     "Weak_NoDialedIDCheck": ("C16_weak_NoDialedIDCheck.cfg", ["IdentityBound"]),
